@@ -33,7 +33,7 @@ PROPS = {
             "l1_nontrivial": ["op:setpower", "out:setpower:err 0 4", "out:setpower:pass"],
             "rule": _HIST % "boundary,workflow,mixed" + "powers chosen at floor(0.3T)-1, floor(0.3T), +1 of the tracked total; non-trivial = history has both an accepted and a limit-refused SetPower; distinct by history term",
             "assumptions": []},
-    "C06": {"tie": [], "l1": _l1(["mixed", "malformed", "authority"], 90, 2400, twin=True),
+    "C06": {"tie": ["Tie/Census.v"], "l1": _l1(["mixed", "malformed", "authority"], 90, 2400, twin=True),
             "l1_nontrivial": ["op:setpower", "out:setpower:err 0 4"],
             "rule": _HIST % "mixed,malformed,authority" + "up to 3 failing txs per history are twin-executed (chain without the tx; per-module store hashes poa/staking/slashing/bank/mint/distribution + projection); non-trivial = history has a SetPower refused by the limit after its writes",
             "assumptions": ["atomicity itself is BaseApp's (outside the repository): the model assumes it in deliver_tx, the twin execution checks it"]},
